@@ -49,13 +49,13 @@ fn neighbour_model(w: &MWord, a: &MSeg, b: &MSeg, x: &dyn Fn(&MSeg) -> bool) -> 
 impl Property for C07 {
     fn id(&self) -> &'static str { "C07" }
     fn rule(&self) -> String {
-        "(a) restating rules `X1=1 … Xk=k > 1 … k` (k ≤ 3; Xi ∈ matrix (some with alphas), group, `[]`, `%`(+stress/tone parameters), structure) with environments and exceptions from the full grammar, on generated words with long segments, tones, both stresses, rich-pool segments: the structural result must equal the input (quick 600k, thorough 8M). \
+        "(a) restating rules `X1=1 … Xk=k > 1 … k` (k ≤ 3; Xi ∈ matrix (some with alphas), group, `[]`, `%`(+stress/tone parameters), structure) with environments and exceptions from the full grammar, on generated words with long segments, tones, both stresses, rich-pool segments: the structural result must equal the input (quick 2M, thorough 20M). \
          (b) exhaustive alpha identities: `[αF] > [αF]`, `[-αF] > [-αF]` for the 26 features, 5 nodes, long, overlong, stress, sec.stress and `%:[αstress] > [αstress]`, `%:[αsecstress] > [αsecstress]` over every base and base+1-diacritic segment (alone and inside `pa.S.ta`) and over the 36 suprasegmental states of C05: result == input. \
          (c) `A > B / X=1 _ 1` for A,B literals and X ∈ {[], C, V, [+voice], [-cont]} on all words ≤4 segments over {p,t,a,i} in every syllabification and random words, against a 10-line neighbour model (left neighbour, as already rewritten, matches X and the right neighbour is bundle-identical); `A > B / %=1 _ 1` against the syllable version (A alone in its syllable between two identical syllables). \
          Non-trivial: the rule's input matched at least once (observed with a marker rule of the same input and environment) for (a); the state/segment is one on which the alpha binds for (b); the model predicts a change for (c).".into()
     }
     fn explore(&self, ctx: &mut Ctx) {
-        let n = ctx.tier.pick(600_000, 8_000_000);
+        let n = ctx.tier.pick(2_000_000, 20_000_000);
         run_tape_batches(self, ctx, "restate", n, 400, &|t| {
             let prof_w = if t.chance(4, 10) { WordProfile::RICH } else { WordProfile::PLAIN };
             let word = gen_word(t, prof_w).text();
